@@ -571,7 +571,11 @@ func (e *Exec) doCall(common *ssa.CallCommon, fnv Val, recv *Val, args []Val, st
 				c.oblige("panic-effect", fmt.Sprintf("callee-nopanic@call%d:%s", ord, lastSeg(ci.name)), st.pc, not(pc), "callee's panics-condition is excluded", e.pos(pos))
 			}
 			st.pc = c.namePC(and(st.pc, not(pc)))
-		} else if con.Flags["maypanic"] && e.nopanic && !e.con.Flags["propagates-panics"] {
+		} else if e.mayPanicHere(con, ci.name) && e.hasRecoveringDefer(st) {
+			// the callee may panic: explore the path on which it does (deferred functions run with a
+			// panic in flight; if one of them recovers, the function returns through its recover block)
+			e.panicPath(con, csc, st, ord, ci.name, pos)
+		} else if e.mayPanicHere(con, ci.name) && e.nopanic && !e.con.Flags["propagates-panics"] {
 			c.oblige("panic-effect", fmt.Sprintf("callee-may-panic@call%d:%s", ord, lastSeg(ci.name)), st.pc, "false", "call to a maypanic callee in a nopanic function: "+ci.name, e.pos(pos))
 		}
 		// effects
@@ -683,7 +687,7 @@ func (e *Exec) havocAll(st *State) {
 }
 
 func (e *Exec) isZapPrivateComp(n string) bool {
-	if strings.HasPrefix(n, "T:") || n == "$clk" || strings.HasPrefix(n, "G:") || n == "$held" || n == "$closed" || n == "$once" {
+	if strings.HasPrefix(n, "T:") || n == "$clk" || strings.HasPrefix(n, "G:") || n == "$held" || n == "$closed" || n == "$once" || n == "$panic" {
 		return true
 	}
 	if n == "E:uint8" {
@@ -823,6 +827,10 @@ func (sc *Scope) resolveModifies(item string) []modLoc {
 		v := sc.eval(ex)
 		c.compSort["$held"] = "(Array Ref Bool)"
 		return []modLoc{{comp: "$held", ref: v.T}}
+	}
+	if item == "panicking()" {
+		c.compSort["$panic"] = SBool
+		return []modLoc{{comp: "$panic"}}
 	}
 	if strings.HasPrefix(item, "once(") && strings.HasSuffix(item, ")") {
 		ex, err := parseExpr(item[5 : len(item)-1])
@@ -1118,7 +1126,7 @@ func (e *Exec) checkFrameAgainst(con *Contract, sc *Scope, label string, st *Sta
 	}
 	sort.Strings(names)
 	for _, n := range names {
-		if n == "$alloc" || n == "$clk" || strings.HasPrefix(n, "T:") || allowedWhole[n] {
+		if n == "$alloc" || n == "$clk" || n == "$panic" || strings.HasPrefix(n, "T:") || allowedWhole[n] {
 			continue
 		}
 		if allowedWhole["$user"] && !e.isZapPrivateComp(n) {
@@ -1282,7 +1290,13 @@ func (e *Exec) builtin(b *ssa.Builtin, common *ssa.CallCommon, st *State, pos to
 	case "print", "println":
 		return Val{}
 	case "recover":
-		return Val{T: "(mk_Iface 0 nilbox)", S: SIface, GT: common.Signature().Results().At(0).Type()}
+		// recover() returns the panic value exactly when a panic is in flight ($panic), and stops it
+		c.compSort["$panic"] = SBool
+		rv := c.freshVal("recovered", common.Signature().Results().At(0).Type())
+		c.fact(c.rangeFact(rv.T, rv.GT, 0))
+		c.factUnder(st.pc, fmt.Sprintf("(= (not (= (if_tag %s) 0)) %s)", rv.T, c.hget(st.heap, "$panic")))
+		st.heap = c.hset(st.heap, "$panic", "false")
+		return rv
 	case "min", "max":
 		t := common.Args[0].Type()
 		if _, _, ok := intInfo(t); ok {
@@ -1566,4 +1580,72 @@ func (e *Exec) checkFnArgs(ci calleeInfo, all []Val, ord int, st *State, pos tok
 		c.oblige("fnarg", fmt.Sprintf("fnarg[%s]@call%d:%s", p.Name(), ord, lastSeg(ci.name)), st.pc, goal,
 			"function passed for "+key+" is declared (and verified) to satisfy that callback contract", e.pos(pos))
 	}
+}
+
+// ------------------------------------------------------------ panics recovered by deferred functions
+
+// hasRecoveringDefer: some deferred closure registered on this path calls recover().
+func (e *Exec) hasRecoveringDefer(st *State) bool {
+	if e.fn.Recover == nil {
+		return false
+	}
+	for _, d := range st.defers {
+		if d.fnv.Fn != nil && callsRecover(d.fnv.Fn.Fn) {
+			return true
+		}
+	}
+	return false
+}
+
+func callsRecover(fn *ssa.Function) bool {
+	for _, b := range fn.Blocks {
+		for _, ins := range b.Instrs {
+			if c, ok := ins.(ssa.CallInstruction); ok {
+				if bi, ok := c.Common().Value.(*ssa.Builtin); ok && bi.Name() == "recover" {
+					return true
+				}
+			}
+		}
+	}
+	return false
+}
+
+// panicPath explores the path on which the callee (contract con) panics at this call site.
+func (e *Exec) panicPath(con *Contract, csc *Scope, st *State, ord int, name string, pos token.Pos) {
+	c := e.c
+	c.compSort["$panic"] = SBool
+	pk := c.fresh("panics", SBool)
+	ps := State{pc: c.namePC(and(st.pc, pk)), heap: st.heap, defers: st.defers}
+	// whatever the callee may modify has happened to an unknown extent
+	e.applyModifies(con, csc, &ps)
+	ps.heap = c.hset(ps.heap, "$panic", "true")
+	saved := e.curBlock
+	e.runDefers(&ps)
+	c.oblige("panic-effect", fmt.Sprintf("panic-recovered@call%d:%s", ord, lastSeg(name)), ps.pc, not(c.hget(ps.heap, "$panic")),
+		"a panic raised inside "+name+" is recovered by a deferred function", e.pos(pos))
+	c.factUnder(ps.pc, not(c.hget(ps.heap, "$panic")))
+	// control resumes in the recover block (which returns the named results)
+	rb := e.fn.Recover
+	e.curBlock = rb
+	cb := c.curBlk
+	c.curBlk = saved.Index // facts of the recover path belong to the paths through the current block
+	e.inPanicPath++
+	e.execBlock(rb, ps)
+	e.inPanicPath--
+	c.curBlk = cb
+	e.curBlock = saved
+	// the normal path continues under "no panic"
+	st.pc = c.namePC(and(st.pc, not(pk)))
+}
+
+func (e *Exec) mayPanicHere(con *Contract, name string) bool {
+	if con.Flags["maypanic"] {
+		return true
+	}
+	for _, m := range e.con.MayPanicCalls {
+		if m == name || m == lastSeg(name) {
+			return true
+		}
+	}
+	return false
 }
